@@ -54,6 +54,39 @@ theorem classType_ne_udt (cls : FrameRead.Bytes) : classType cls ≠ 0x30 := by
   revert this
   decide
 
+/-- a custom option never views as a collection / tuple / UDT kind -/
+theorem customType_ne (cls : FrameRead.Bytes) :
+    customType cls ≠ 0x20 ∧ customType cls ≠ 0x21 ∧ customType cls ≠ 0x22 ∧ customType cls ≠ 0x31 ∧
+    customType cls ≠ 0x30 := by
+  have hu := classType_ne_udt cls
+  unfold customType elemKinds
+  by_cases h : [0x20, 0x21, 0x22, 0x31].contains (classType cls) = true
+  · rw [if_pos h]; decide
+  · rw [if_neg h]
+    have h' : ¬ (classType cls = 0x20 ∨ classType cls = 0x21 ∨ classType cls = 0x22 ∨ classType cls = 0x31) := by
+      simpa using h
+    refine ⟨fun e => h' (by simp [e]), fun e => h' (by simp [e]), fun e => h' (by simp [e]), fun e => h' (by simp [e]), hu⟩
+
+/-- the `switch` of readTypeInfo on the mapped class (frame.go, after the repair of KF-C04-1) is the
+    specification's `customType` -/
+theorem simple_custom (cls : FrameRead.Bytes) :
+    (if (classType cls == typeCustom || classType cls == typeList || classType cls == typeSet ||
+         classType cls == typeMap || classType cls == typeTuple) = true
+     then ({ typ := 0, custom := cls } : Native) else { typ := classType cls, custom := cls })
+      = { typ := customType cls, custom := cls } := by
+  unfold customType elemKinds
+  by_cases h0 : classType cls = 0
+  · simp [h0, typeCustom]
+  · by_cases h : classType cls = 0x20 ∨ classType cls = 0x21 ∨ classType cls = 0x22 ∨ classType cls = 0x31
+    · have hc : [0x20, 0x21, 0x22, 0x31].contains (classType cls) = true := by simpa using h
+      rw [if_pos hc]
+      rcases h with h | h | h | h <;> simp [h, typeCustom, typeList, typeSet, typeMap, typeTuple]
+    · have hc : ¬ [0x20, 0x21, 0x22, 0x31].contains (classType cls) = true := by simpa using h
+      rw [if_neg hc]
+      have h' : classType cls ≠ 0x20 ∧ classType cls ≠ 0x21 ∧ classType cls ≠ 0x22 ∧ classType cls ≠ 0x31 := by
+        refine ⟨fun e => h (by simp [e]), fun e => h (by simp [e]), fun e => h (by simp [e]), fun e => h (by simp [e])⟩
+      simp [h0, h', typeCustom, typeList, typeSet, typeMap, typeTuple]
+
 /-! ## type descriptors -/
 
 theorem eShort_length (n : Nat) : (eShort n).length = 2 := rfl
@@ -76,9 +109,9 @@ theorem native_tail (n : Native) (r : FrameRead.Bytes)
 
 mutual
 theorem readType_ok : ∀ (t : TypeDesc) (fuel : Nat) (r : FrameRead.Bytes),
-    wfType t = true → noCollClass t = true → (eType t).length ≤ fuel →
+    wfType t = true → (eType t).length ≤ fuel →
     readTypeInfoF fuel (eType t ++ r) = .ok (viewType t, r)
-  | .native id, fuel, r, hw, _, hf => by
+  | .native id, fuel, r, hw, hf => by
     cases fuel with
     | zero => simp [eType, eShort] at hf
     | succ f =>
@@ -88,104 +121,92 @@ theorem readType_ok : ∀ (t : TypeDesc) (fuel : Nat) (r : FrameRead.Bytes),
       simp only [hc, Bool.false_eq_true, if_false]
       rw [bind_ok (pure_apply _ _)]
       simp [typeTuple, typeUDT, typeMap, typeList, typeSet, h2, h3, h4, h5, h6, pure_apply, viewType]
-  | .custom cls, fuel, r, hw, hn, hf => by
+  | .custom cls, fuel, r, hw, hf => by
     cases fuel with
     | zero => simp [eType, eShort] at hf
     | succ f =>
       have hs : fitsShort cls = true := by simpa [wfType] using hw
-      have hnc : ¬ (classType cls = 0x20 ∨ classType cls = 0x21 ∨ classType cls = 0x22 ∨ classType cls = 0x31) := by
-        simpa [noCollClass] using hn
-      have hu := classType_ne_udt cls
+      obtain ⟨h4, h3, h5, h1, hu⟩ := customType_ne cls
       rw [readTypeInfoF, eType, List.append_assoc, bind_ok (readShort_eShort 0 _ (by decide))]
       have hc : ((0 : Nat) == typeCustom) = true := rfl
       simp only [hc, if_true]
       rw [bind_bind_ok (readString_eString cls r hs), apache_eq_table, bind_ok (pure_apply _ _)]
-      have hsimple : (if (classType cls != typeCustom) = true then ({ typ := classType cls, custom := cls } : Native)
-          else { typ := 0, custom := cls }) = { typ := classType cls, custom := cls } := by
-        by_cases h : classType cls = 0 <;> simp [typeCustom, h]
-      rw [hsimple]
-      have h1 : classType cls ≠ 0x31 := fun h => hnc (by simp [h])
-      have h3 : classType cls ≠ 0x21 := fun h => hnc (by simp [h])
-      have h4 : classType cls ≠ 0x20 := fun h => hnc (by simp [h])
-      have h5 : classType cls ≠ 0x22 := fun h => hnc (by simp [h])
+      rw [simple_custom cls]
       simp [typeTuple, typeUDT, typeMap, typeList, typeSet, pure_apply, viewType, h1, hu, h3, h4, h5]
-  | .list e, fuel, r, hw, hn, hf => by
+  | .list e, fuel, r, hw, hf => by
     cases fuel with
     | zero => simp [eType, eShort] at hf
     | succ f =>
       have hl : (eType e).length ≤ f := by simp [eType, eShort] at hf; omega
-      have ih := readType_ok e f r (by simpa [wfType] using hw) (by simpa [noCollClass] using hn) hl
+      have ih := readType_ok e f r (by simpa [wfType] using hw) hl
       rw [readTypeInfoF, eType, List.append_assoc, bind_ok (readShort_eShort 0x20 _ (by decide))]
       simp [typeCustom, typeTuple, typeUDT, typeMap, typeList, typeSet, bind_ok (pure_apply _ _), bind_ok ih, pure_apply, viewType]
-  | .set e, fuel, r, hw, hn, hf => by
+  | .set e, fuel, r, hw, hf => by
     cases fuel with
     | zero => simp [eType, eShort] at hf
     | succ f =>
       have hl : (eType e).length ≤ f := by simp [eType, eShort] at hf; omega
-      have ih := readType_ok e f r (by simpa [wfType] using hw) (by simpa [noCollClass] using hn) hl
+      have ih := readType_ok e f r (by simpa [wfType] using hw) hl
       rw [readTypeInfoF, eType, List.append_assoc, bind_ok (readShort_eShort 0x22 _ (by decide))]
       simp [typeCustom, typeTuple, typeUDT, typeMap, typeList, typeSet, bind_ok (pure_apply _ _), bind_ok ih, pure_apply, viewType]
-  | .map k v, fuel, r, hw, hn, hf => by
+  | .map k v, fuel, r, hw, hf => by
     cases fuel with
     | zero => simp [eType, eShort] at hf
     | succ f =>
       have hw' : wfType k = true ∧ wfType v = true := by simpa [wfType] using hw
-      have hn' : noCollClass k = true ∧ noCollClass v = true := by simpa [noCollClass] using hn
       have hl : (eType k).length ≤ f ∧ (eType v).length ≤ f := by simp [eType, eShort] at hf; omega
-      have ihk := readType_ok k f (eType v ++ r) hw'.1 hn'.1 hl.1
-      have ihv := readType_ok v f r hw'.2 hn'.2 hl.2
+      have ihk := readType_ok k f (eType v ++ r) hw'.1 hl.1
+      have ihv := readType_ok v f r hw'.2 hl.2
       rw [readTypeInfoF, eType, List.append_assoc, List.append_assoc, bind_ok (readShort_eShort 0x21 _ (by decide))]
       simp [typeCustom, typeTuple, typeUDT, typeMap, typeList, typeSet, bind_ok (pure_apply _ _), bind_ok ihk, bind_ok ihv, pure_apply, viewType]
-  | .udt ks name fs, fuel, r, hw, hn, hf => by
+  | .udt ks name fs, fuel, r, hw, hf => by
     cases fuel with
     | zero => simp [eType, eShort] at hf
     | succ f =>
       have hw' : ((fitsShort ks = true ∧ fitsShort name = true) ∧ isShort fs.length = true) ∧ wfFields fs = true := by
         simpa [wfType] using hw
       have hl : (eFields fs).length ≤ f := by simp [eType, eShort, eString] at hf; omega
-      have ih := readFields_ok fs f r hw'.2 (by simpa [noCollClass] using hn) hl
+      have ih := readFields_ok fs f r hw'.2 hl
       have hlen : fs.length < 65536 := by simpa [isShort] using hw'.1.2
       rw [readTypeInfoF, eType, List.append_assoc, bind_ok (readShort_eShort 0x30 _ (by decide))]
       simp only [List.append_assoc]
       simp [typeCustom, typeTuple, typeUDT, typeMap, typeList, typeSet, bind_ok (pure_apply _ _),
         bind_ok (readString_eString ks _ hw'.1.1.1), bind_ok (readString_eString name _ hw'.1.1.2),
         bind_ok (readShort_eShort _ _ hlen), bind_ok ih, pure_apply, viewType]
-  | .tuple es, fuel, r, hw, hn, hf => by
+  | .tuple es, fuel, r, hw, hf => by
     cases fuel with
     | zero => simp [eType, eShort] at hf
     | succ f =>
       have hw' : isShort es.length = true ∧ wfTypes es = true := by simpa [wfType] using hw
       have hl : (eTypes es).length ≤ f := by simp [eType, eShort] at hf; omega
-      have ih := readTypes_ok es f r hw'.2 (by simpa [noCollClass] using hn) hl
+      have ih := readTypes_ok es f r hw'.2 hl
       have hlen : es.length < 65536 := by simpa [isShort] using hw'.1
       rw [readTypeInfoF, eType, List.append_assoc, bind_ok (readShort_eShort 0x31 _ (by decide))]
       simp only [List.append_assoc]
       simp [typeCustom, typeTuple, typeUDT, typeMap, typeList, typeSet, bind_ok (pure_apply _ _),
         bind_ok (readShort_eShort _ _ hlen), bind_ok ih, pure_apply, viewType]
 theorem readTypes_ok : ∀ (es : TypeDescs) (fuel : Nat) (r : FrameRead.Bytes),
-    wfTypes es = true → noCollClassL es = true → (eTypes es).length ≤ fuel →
+    wfTypes es = true → (eTypes es).length ≤ fuel →
     readN (readTypeInfoF fuel) es.length (eTypes es ++ r) = .ok (viewTypes es, r)
-  | .nil, fuel, r, _, _, _ => by simp [TypeDescs.length, eTypes, readN, pure_apply, viewTypes]
-  | .cons t rest, fuel, r, hw, hn, hf => by
+  | .nil, fuel, r, _, _ => by simp [TypeDescs.length, eTypes, readN, pure_apply, viewTypes]
+  | .cons t rest, fuel, r, hw, hf => by
     have hw' : wfType t = true ∧ wfTypes rest = true := by simpa [wfTypes] using hw
-    have hn' : noCollClass t = true ∧ noCollClassL rest = true := by simpa [noCollClassL] using hn
     have hl : (eType t).length ≤ fuel ∧ (eTypes rest).length ≤ fuel := by simp [eTypes] at hf; omega
-    have ih1 := readType_ok t fuel (eTypes rest ++ r) hw'.1 hn'.1 hl.1
-    have ih2 := readTypes_ok rest fuel r hw'.2 hn'.2 hl.2
+    have ih1 := readType_ok t fuel (eTypes rest ++ r) hw'.1 hl.1
+    have ih2 := readTypes_ok rest fuel r hw'.2 hl.2
     simp only [TypeDescs.length, eTypes, readN, List.append_assoc]
     rw [bind_ok ih1, bind_ok ih2]
     rfl
 theorem readFields_ok : ∀ (fs : FieldDescs) (fuel : Nat) (r : FrameRead.Bytes),
-    wfFields fs = true → noCollClassF fs = true → (eFields fs).length ≤ fuel →
+    wfFields fs = true → (eFields fs).length ≤ fuel →
     readN (do let fname ← readString; let t ← readTypeInfoF fuel; pure (fname, t)) fs.length (eFields fs ++ r)
       = .ok (viewFields fs, r)
-  | .nil, fuel, r, _, _, _ => by simp [FieldDescs.length, eFields, readN, pure_apply, viewFields]
-  | .cons n t rest, fuel, r, hw, hn, hf => by
+  | .nil, fuel, r, _, _ => by simp [FieldDescs.length, eFields, readN, pure_apply, viewFields]
+  | .cons n t rest, fuel, r, hw, hf => by
     have hw' : (fitsShort n = true ∧ wfType t = true) ∧ wfFields rest = true := by simpa [wfFields] using hw
-    have hn' : noCollClass t = true ∧ noCollClassF rest = true := by simpa [noCollClassF] using hn
     have hl : (eType t).length ≤ fuel ∧ (eFields rest).length ≤ fuel := by simp [eFields] at hf; omega
-    have ih1 := readType_ok t fuel (eFields rest ++ r) hw'.1.2 hn'.1 hl.1
-    have ih2 := readFields_ok rest fuel r hw'.2 hn'.2 hl.2
+    have ih1 := readType_ok t fuel (eFields rest ++ r) hw'.1.2 hl.1
+    have ih2 := readFields_ok rest fuel r hw'.2 hl.2
     simp only [FieldDescs.length, eFields, readN, List.append_assoc]
     rw [bind_ok (f := fun x => _) (show (do let fname ← readString; let t ← readTypeInfoF fuel; pure (fname, t) : P _)
         (eString n ++ (eType t ++ (eFields rest ++ r))) = .ok ((n, viewType t), eFields rest ++ r) from by
@@ -195,9 +216,9 @@ theorem readFields_ok : ∀ (fs : FieldDescs) (fuel : Nat) (r : FrameRead.Bytes)
 end
 
 /-- readTypeInfo with the buffer length as fuel -/
-theorem readTypeInfo_ok (t : TypeDesc) (r : FrameRead.Bytes) (hw : wfType t = true) (hn : noCollClass t = true) :
+theorem readTypeInfo_ok (t : TypeDesc) (r : FrameRead.Bytes) (hw : wfType t = true) :
     readTypeInfo (eType t ++ r) = .ok (viewType t, r) := by
   unfold readTypeInfo
-  exact readType_ok t _ r hw hn (by simp; omega)
+  exact readType_ok t _ r hw (by simp; omega)
 
 end C04
